@@ -8,18 +8,27 @@ from ..comp import contract as CT
 from ..comp import storage as ST_
 from ..comp import chp as CH_
 from ..comp import scaled as SC_
+from ..comp import c08gen as G8
+from ..comp import c08coarse as G8C
 
 ID = 'C08'
 THEOREMS = CT.THEOREMS_C08 + [
     ('EAO.Properties.C20', 'EAO.C20.order_outside_inert', 'an order with no step in the horizon has zero cost, no mapping row, no restriction and occurs in no nodal row'),
     ('EAO.Properties.C19', 'EAO.C19.restricted_is_filter', 'the asset grid is exactly the sub-list of grid points in [start, end)'),
 ] + ST_.THEOREMS_C08_STORAGE + CH_.THEOREMS_C08 + SC_.THEOREMS_C08_SCALED
-PARTIAL = ['window theorems (every mapping row inside the asset\'s own grid, zero read-out outside it, empty window inert) are proved builder by builder: contract / transport / multi-commodity / order book, Storage (all options), CHP / Plant / min-load CHP / ramp profiles, and for the wrappers ScaledAsset and StructuredAsset relative to what they wrap; LinkedAsset is not modelled; the metamorphic statement (an asset outside the horizon changes nothing ELSE) follows from these plus the composition theorems of C09 and is searched for failing inputs by the oracle']
+PARTIAL = ['window theorems (every mapping row inside the asset\'s own grid, zero read-out outside it, empty window inert) are proved builder by builder: contract / transport / multi-commodity / order book, Storage (all options), CHP / Plant / min-load CHP / ramp profiles, and for the wrappers ScaledAsset and StructuredAsset relative to what they wrap; LinkedAsset is not modelled; that the window of a StructuredAsset reaches every wrapped asset (also the order book, which has no start/end parameter of its own) is not a theorem but searched for failing inputs by stream swin against the window applied by hand; that the start/end of a ScaledAsset reach its base asset is likewise searched by the oracles (top-level scaled assets with own windows in stream meta, wrapped ones in stream swin), not proved; the metamorphic statement (an asset outside the horizon changes nothing ELSE) follows from these plus the composition theorems of C09 and is searched for failing inputs by the oracle']
 COMPONENTS = ['contract/transport builders (simple_contract, contract, multi, transport, ext_transport) vs the real builders, incl. windows in 9 placements and take periods inside/straddling/outside']
-RULE = ('three streams: (a) builder correspondence cases over all option combinations; (b) metamorphic: a random portfolio plus an extra asset of ANY kind whose window lies entirely outside the horizon (before/after), or extra take periods / orders outside: value and the other assets\' solution unchanged; '
-        '(c) every asset\'s dispatch is zero outside its own window clipped to the horizon; proration of take periods checked against date arithmetic; non-trivial = solved scenario in which the tested element exists; distinct by case hash')
-ASSUMPTIONS = ['values compared with tolerance 2e-6 relative; solutions compared by transport into the other problem (ties allowed)']
-EXPLANATION = 'theorems about the builder models; correspondence; metamorphic oracles on the real code'
+RULE = ('streams and oracles: (a) builder correspondence cases over all option combinations; (b) metamorphic: a random portfolio plus an extra asset of ANY kind whose window lies entirely outside the horizon (before/after), or extra take periods / orders outside: value and the other assets\' solution unchanged; '
+        '(c) every asset\'s dispatch is zero outside its own window clipped to the horizon (scaled asset: own start/end intersected with the window of its base; own windows in all placements), and every asset wrapped in a StructuredAsset is - per wrapped asset, at external and internal nodes - dispatched only inside the structure\'s window intersected with its own; proration of take periods checked against date arithmetic; '
+        '(d) windows in a split optimisation; '
+        '(e) stream swin (comp/c08gen.py): a StructuredAsset WITH a window (10 placements relative to the horizon) around 1-4 assets of all kinds (order book, simple contract, contract, storage, plant, CHP, min-load CHP, transport, extended transport, multi-commodity, scaled asset with own and/or base window; at the external nodes and at an internal node), '
+        'the orders of wrapped order books placed anywhere relative to horizon AND window (inside, straddling, inside the horizon but outside the window, outside the horizon) at prices worth executing against the node\'s market: oracles (c) on the structure\'s dispatch columns, on its internal-variable table (dispatch at internal nodes, executed fractions of wrapped orders) and per wrapped asset, '
+        'plus the reference optimum of the same portfolio with the window applied BY HAND (window removed from the structure, wrapped windows intersected, orders cut to the window, orders without a part inside dropped); '
+        '(f) stream cwin (comp/c08coarse.py): an asset of every class that accepts freq, at a frequency of 2-4 grid steps, whose own window reaches beyond the horizon at the start, the end or both (by whole coarse steps, by part of one, also between grid points) or lies entirely outside it: '
+        'works whenever the same asset without freq works, no dispatch outside the window clipped to the horizon, same optimum (and the solution still optimal) with the window shrunk to the asset\'s own coarse cuts enclosing the horizon and, where the horizon starts on such a cut, with the window clipped to the horizon; entirely outside: optimum as without the asset; '
+        'non-trivial = solved scenario in which the tested element exists (swin: the window excludes at least one step of the horizon; cwin: the coarse asset is dispatched, or lies outside); distinct by case hash')
+ASSUMPTIONS = ['values compared with tolerance 2e-6 relative; dispatch outside a window counts from 1e-6 of the largest dispatch; solutions compared by transport into the other problem (ties allowed)']
+EXPLANATION = 'theorems about the builder models; correspondence; metamorphic oracles on the real code (inert elements outside the horizon; windows of structured assets against the window applied by hand; coarse-frequency assets whose window reaches beyond the horizon)'
 
 
 def scenarios(seed, tier):
@@ -36,6 +45,11 @@ def scenarios(seed, tier):
         r2 = random.Random(rnd.getrandbits(48))
         s = gen.gen_portfolio(r2, tmax=8 if tier == 'quick' else 14, tz_prob=0.1, allow_periodic=False, allow_freq=False)
         s['extra_seed'] = r2.getrandbits(40)
+        for a in s['assets']:
+            # the scaled asset's OWN start / end (any placement), over a base with or without a window of its own
+            if a['type'] == 'ScaledAsset' and r2.random() < 0.6:
+                gen.put_window(a['args'], gen.window(r2, s['grid'], kinds=['inside', 'inside', 'start_only', 'end_only', 'straddle_start', 'straddle_end',
+                                                                          'covering', 'equal', 'before', 'after', 'offgrid']))
         if i % 6 == 5:
             # a unit that is running at the start and committed (remaining minimum runtime) beyond the end of its own window
             s['assets'] = [a for a in s['assets'] if a['type'] not in ('OrderBook', 'StructuredAsset')]
@@ -59,6 +73,14 @@ def scenarios(seed, tier):
             gen.make_late_start(s, r2)
         s['parts'] = r2.choice([2, 3, 4])
         yield 'split%d' % i, {'stream': 'split', 'case': s}
+    for i in range(n):
+        # a StructuredAsset WITH a window around assets of all kinds, incl. order books whose orders lie partly / entirely outside
+        # that window (inside the horizon) at attractive prices
+        r2 = random.Random(rnd.getrandbits(48))
+        yield 'swin%d' % i, {'stream': 'swin', 'case': G8.gen_struct_window_case(r2, tmax=9 if tier == 'quick' else 14, allow_mip=(i % 3 != 0))}
+    for i in range(n // 2):
+        # an asset with a COARSER frequency than the grid whose own window reaches beyond the horizon or lies entirely outside it
+        yield 'cwin%d' % i, {'stream': 'cwin', 'case': G8C.gen_case(random.Random(rnd.getrandbits(48)), tmax=16 if tier == 'quick' else 30)}
 
 
 def outside_asset(rnd, scn):
@@ -106,16 +128,48 @@ def outside_asset(rnd, scn):
     w = gen.window(rnd, g, kinds=['before', 'after'])
     if w[0] == 'none':
         return None
-    tgt = a['base']['args'] if a['type'] == 'ScaledAsset' else a['args']
-    tgt.pop('start', None)
-    tgt.pop('end', None)
-    gen.put_window(tgt, w)
+    tgts = [a['args']]
+    if a['type'] == 'ScaledAsset':
+        # the window outside the horizon sits on the base, on the scaled asset itself (base without window), or on both
+        tgts = rnd.choice([[a['base']['args']], [a['args']], [a['base']['args'], a['args']]])
+    for tgt in tgts:
+        tgt.pop('start', None)
+        tgt.pop('end', None)
+        gen.put_window(tgt, w)
     return a
 
 
 def window_of(spec):
     a = spec.get('base', spec).get('args', {}) if spec['type'] == 'ScaledAsset' else spec.get('args', {})
     return a.get('start'), a.get('end')
+
+
+def spec_mask(tg, tz, spec):
+    """steps of the horizon inside the window of an asset specification; a ScaledAsset is active in the intersection of its own
+    start/end with the window of its base asset (it hands its window down to the base)"""
+    mask = window_mask(tg, tz, *window_of(spec))
+    if spec['type'] == 'ScaledAsset':
+        mask = mask & window_mask(tg, tz, spec.get('args', {}).get('start'), spec.get('args', {}).get('end'))
+    return mask
+
+
+def has_window(spec):
+    return any(x is not None for x in window_of(spec)) or (spec['type'] == 'ScaledAsset' and any(k in spec.get('args', {}) for k in ('start', 'end')))
+
+
+def window_mask(tg, tz, s, e):
+    """steps of the horizon whose start lies in [s, e) (scenario dates: naive local times of the grid's zone; None = open)"""
+    tp = tg.timepoints
+    mask = np.ones(tg.T, dtype=bool)
+    if s is not None:
+        ts = pd.Timestamp(s['$dt'])
+        ts = ts.tz_localize(tz) if tz else ts
+        mask &= np.asarray(tp >= ts)
+    if e is not None:
+        te = pd.Timestamp(e['$dt'])
+        te = te.tz_localize(tz) if tz else te
+        mask &= np.asarray(tp < te)
+    return mask
 
 
 def check_windows(base, rec, viol, feats, mode='mono'):
@@ -129,19 +183,9 @@ def check_windows(base, rec, viol, feats, mode='mono'):
     for spec, a in zip(base['assets'], rec['portf'].assets):
         if spec['type'] == 'OrderBook':
             continue
-        s, e = window_of(spec)
-        if s is None and e is None:
+        if not has_window(spec):
             continue
-        tp = tg.timepoints
-        mask = np.ones(tg.T, dtype=bool)
-        if s is not None:
-            ts = pd.Timestamp(s['$dt'])
-            ts = ts.tz_localize(tz) if tz else ts
-            mask &= np.asarray(tp >= ts)
-        if e is not None:
-            te = pd.Timestamp(e['$dt'])
-            te = te.tz_localize(tz) if tz else te
-            mask &= np.asarray(tp < te)
+        mask = spec_mask(tg, tz, spec)
         for n in a.nodes:
             col = cols[(a.name, n.name)]
             if list(cols.values()).count(col) > 1 or col not in disp.columns:
@@ -155,6 +199,8 @@ def check_windows(base, rec, viol, feats, mode='mono'):
             if mode == 'split' and mask.any() and float(np.abs(v[mask]).max()) > 1e-6 * scale:
                 hit = True
         feats.append('windowed-asset')
+        if spec['type'] == 'ScaledAsset' and any(k in spec.get('args', {}) for k in ('start', 'end')):
+            feats.append('scaled-asset-with-own-window:base-window=%s' % any(x is not None for x in window_of(spec)))
     return scale, hit
 
 
@@ -176,6 +222,7 @@ def run_meta(scn, r):
         feats.append('unsolved')
         return
     scale, _ = check_windows(base, rec, viol, feats)
+    check_wrapped(base, rec, viol, feats)
     if 'windowed-asset' in feats:
         r['nontrivial'] = True
     rnd = random.Random(scn['extra_seed'])
@@ -321,6 +368,133 @@ def run_split(scn, r):
     r['nontrivial'] = bool(hit)
 
 
+def check_internal(base, rec, viol, feats):
+    """(c') what a StructuredAsset with a window wraps at INTERNAL nodes: the read-out of the wrapped assets' variables (table
+    `internal_variables`, columns '<structure> (<variable>__<wrapped asset>)': dispatch at internal nodes, executed fraction of
+    the orders of a wrapped order book, ...) shows nothing outside the structure's window"""
+    iv = rec['out'].get('internal_variables')
+    if iv is None or not len(iv.columns):
+        return
+    tz = base['grid'].get('tz')
+    for spec in base['assets']:
+        if spec['type'] != 'StructuredAsset':
+            continue
+        s, e = window_of(spec)
+        if s is None and e is None:
+            continue
+        mask = window_mask(rec['tg'], tz, s, e)
+        for col in iv.columns:
+            if not str(col).startswith(spec['name'] + ' ('):
+                continue
+            v = np.nan_to_num(pd.to_numeric(iv[col], errors='coerce').values.astype(float))
+            bad = np.where((~mask) & (np.abs(v) > 1e-6))[0]
+            feats.append('windowed-internal-variable')
+            if len(bad):
+                inner = str(col)[len(spec['name']) + 2:-1].split('__')[-1]
+                it = [b['type'] for b in spec['inner'] if b['name'] == inner]
+                viol('structured asset %r with a window: wrapped asset %r has the non-zero internal variable %s = %.6g at step %d outside the window' % (
+                    spec['name'], inner, col, v[bad[0]], int(bad[0])), what='outside_window_internal', asset_type='StructuredAsset', inner_type=(it or [None])[0])
+                break
+
+
+def check_wrapped(base, rec, viol, feats):
+    """(c'') per WRAPPED asset of a StructuredAsset: its dispatch (problem's own record of the structure: variable x factor per wrapped
+    asset, node - external or internal - and step; NOT netted over the wrapped assets as the structure's dispatch column is) is zero
+    outside the structure's window intersected with the wrapped asset's own window.  For a wrapped order book these are the
+    deliveries of its executed orders."""
+    m = rec['op'].mapping
+    if m is None or 'internal_asset' not in m.columns:
+        return
+    x = np.asarray(rec['res'].x, dtype=float)
+    tz = base['grid'].get('tz')
+    T = rec['tg'].T
+    for spec in base['assets']:
+        if spec['type'] != 'StructuredAsset':
+            continue
+        ms = window_mask(rec['tg'], tz, *window_of(spec))
+        rows = m[(m['asset'] == spec['name']) & m['type'].isin(['d', 'i']) & m['node'].notnull()]
+        for b in spec['inner']:
+            mask = ms if b['type'] == 'OrderBook' else (ms & spec_mask(rec['tg'], tz, b))
+            if mask.all():
+                continue
+            feats.append('windowed-wrapped-asset')
+            rb = rows[rows['internal_asset'] == b['name']]
+            if not len(rb):
+                continue
+            fac = rb['disp_factor'].values.astype(float) if 'disp_factor' in rb.columns else np.ones(len(rb))
+            val = x[rb.index.values.astype(int)] * np.where(np.isnan(fac), 1.0, fac)
+            steps = rb['time_step'].values.astype(int)
+            scale = max(1.0, float(np.abs(val).max()))
+            for nd in rb['node'].unique():
+                tot = np.zeros(T)
+                sel = (rb['node'] == nd).values
+                np.add.at(tot, steps[sel], val[sel])
+                bad = np.where((~mask) & (np.abs(tot) > 1e-6 * scale))[0]
+                if len(bad):
+                    viol('structured asset %r: wrapped asset %r (%s) is dispatched at node %s at step %d (%.6g) outside the window it has inside the structure' % (
+                        spec['name'], b['name'], b['type'], nd, int(bad[0]), tot[bad[0]]), what='outside_window_wrapped', asset_type='StructuredAsset', inner_type=b['type'])
+                    break
+
+
+def run_swin(scn, r):
+    """stream 'swin': a StructuredAsset with a window around assets of all kinds (comp/c08gen.py)"""
+    feats = r['features']
+
+    def viol(msg, **facts):
+        r['violations'].append({'oracle': 'horizon_and_windows', 'detail': msg, 'facts': facts})
+    base = {k: v for k, v in scn.items() if k != 'window_kind'}
+    sa = [a for a in base['assets'] if a['type'] == 'StructuredAsset'][0]
+    feats.append('struct-window:' + str(scn.get('window_kind')))
+    for b in sa['inner']:
+        feats.append('wrapped:%s@%s' % (b['type'], 'internal' if any(n in sa.get('inner_nodes', []) for n in b['nodes']) else 'external'))
+    flat, ff = G8.flatten_by_hand(base)
+    inner_types = sorted(set(b['type'] for b in sa['inner']))
+
+    def run(s_):
+        try:
+            rec_ = pf.setup_mono(s_)
+            pf.solve_rec(rec_)
+            return rec_, None
+        except Exception as e_:
+            return None, e_
+    rec, err = run(base)
+    rf, errf = run(flat)
+    r['evaluated'] += 1
+    if err is not None or errf is not None:
+        if (err is None) != (errf is None):
+            viol('structured asset with window %s around %s: set-up / optimisation / read-out %s, with the window applied by hand to the wrapped assets and orders %s' % (
+                scn.get('window_kind'), inner_types, 'raises %s (%s)' % (type(err).__name__, str(err)[:100]) if err is not None else 'works',
+                'raises %s (%s)' % (type(errf).__name__, str(errf)[:100]) if errf is not None else 'works'), what='struct_window_raises', inner_types=inner_types)
+        else:
+            feats.append('setup-error:' + impl.err_class(err))
+        return
+    a_, b_ = rec['res'], rf['res']
+    if isinstance(a_, str) or isinstance(b_, str):
+        if isinstance(a_, str) != isinstance(b_, str):
+            viol('structured asset with window %s around %s: optimisation %s, with the window applied by hand to the wrapped assets and orders %s' % (
+                scn.get('window_kind'), inner_types, a_ if isinstance(a_, str) else 'successful', b_ if isinstance(b_, str) else 'successful'),
+                what='struct_window_status', inner_types=inner_types)
+        else:
+            feats.append('unsolved')
+        return
+    # (c) nothing at the external nodes outside the window, (c') nothing at internal nodes / in the executed fractions outside it
+    check_windows(base, rec, viol, feats)
+    check_internal(base, rec, viol, feats)
+    check_wrapped(base, rec, viol, feats)
+    # (e) the window applied by hand gives the same optimum
+    V0, V1 = float(rec['res'].value), float(rf['res'].value)
+    if abs(V0 - V1) > 2e-6 * max(1.0, abs(V0), abs(V1)):
+        viol('structured asset with window %s around %s: optimum %.9g; with the window applied by hand (wrapped windows intersected, %d of %d orders cut to the window, %d without a part inside dropped) the optimum is %.9g' % (
+            scn.get('window_kind'), inner_types, V0, ff['cut'], ff['orders'], ff['dropped'], V1), what='struct_window_value', inner_types=inner_types)
+    mask = window_mask(rec['tg'], base['grid'].get('tz'), *window_of(sa))
+    if ff['orders']:
+        feats.append('orders-cut' if ff['cut'] else 'no-order-cut')
+        feats.append('orders-dropped' if ff['dropped'] else 'no-order-dropped')
+    feats.append('window-steps:%s' % ('none' if not mask.any() else 'all' if mask.all() else 'some'))
+    r['nontrivial'] = bool((~mask).any())
+    r['observed'] = {'value': V0, 'value_by_hand': V1, 'orders': ff}
+
+
 def run_case(c, drv):
     r = {'evaluated': 1, 'nontrivial': False, 'features': ['stream:' + c['stream']], 'disagreements': [], 'violations': []}
     if c['stream'] == 'build':
@@ -336,6 +510,10 @@ def run_case(c, drv):
         r['nontrivial'] = bool(rec.get('nontrivial'))
     elif c['stream'] == 'split':
         run_split(c['case'], r)
+    elif c['stream'] == 'swin':
+        run_swin(c['case'], r)
+    elif c['stream'] == 'cwin':
+        G8C.run_case(c['case'], r)
     else:
         run_meta(c['case'], r)
     return r
